@@ -40,9 +40,9 @@ TRUSTED = [
 ]
 
 FS = 30000.0
-PATHS = ["bin", "cbin", "cbin_tmp", "ch", "meta", "bin_temp", "s_bin", "s_bin_temp", "s_meta"]
+PATHS = ["bin", "cbin", "cbin_tmp", "ch", "meta", "bin_temp", "s_bin", "s_bin_temp", "s_meta", "ch_tmp"]
 SUFFIX = {"bin": ".bin", "cbin": ".cbin", "cbin_tmp": ".cbin_tmp", "ch": ".ch", "meta": ".meta",
-          "bin_temp": ".bin_temp"}
+          "bin_temp": ".bin_temp", "ch_tmp": ".ch_tmp"}
 EVK = {"readopen": 1, "openw": 2, "compute": 3, "append": 4, "dump": 5, "verify": 6, "rename": 7,
        "unlink": 8, "copy": 9}
 OPS = ["compress_file", "decompress_file", "decompress_to_scratch"]
@@ -192,7 +192,7 @@ class World:
     def content(self, p, st, r, c):
         if st[0] == 0:
             return None
-        fam = "comp" if p in ("cbin", "cbin_tmp") else "hdr" if p == "ch" else \
+        fam = "comp" if p in ("cbin", "cbin_tmp") else "hdr" if p in ("ch", "ch_tmp") else \
             "meta" if p in ("meta", "s_meta") else "orig"
         if st[0] == 1:
             j = st[1]
@@ -499,6 +499,13 @@ def fs_case(world, d, sc):
         except BaseException as e:      # noqa
             exc = e
     obs["exc"] = None if exc is None else type(exc).__name__
+    obs["in_codec"] = False
+    tb = exc.__traceback__ if exc is not None else None
+    while tb is not None:
+        co = tb.tb_frame.f_code
+        if co.co_filename.endswith("mtscomp.py") and co.co_name in ("compress", "decompress"):
+            obs["in_codec"] = True
+        tb = tb.tb_next
     obs["outcome"] = 0 if exc is None else (1 if hooks.injected else 2)
     obs["events"] = hooks.events
     obs["final"] = {k: world.abstract(fp[k], r, c) for k in PATHS}
@@ -542,13 +549,22 @@ def fs_oracle(world, sc, fp, obs):
                 P.append(("return", "reader.file_bin is %s" % obs["file_bin"]))
             if (fin["bin"][0] == 0) != (not sc["keep"]):
                 P.append(("keep", "keep_original=%s but x.bin is %s" % (sc["keep"], fin["bin"])))
-        # companion header under its final name (recorded finding F-C02-b when it is left partial / mismatched)
-        if not done:
-            if fin["ch"][0] in (1, 9):
-                P.append(("ch_partial", "failed compress_file left a truncated x.ch"))
-            elif fin["cbin"][0] == 2 and fin["ch"] != [2, 3, fin["cbin"][2], fin["cbin"][3]] and \
-                    init["ch"] == [2, 3, init["cbin"][2], init["cbin"][3]]:
-                P.append(("ch_mismatch", "failed compress_file left x.cbin %s next to x.ch %s" % (fin["cbin"], fin["ch"])))
+        if done and fin["ch_tmp"][0] != 0:
+            P.append(("done_incomplete", "compress_file returned but x.ch_tmp is %s" % fin["ch_tmp"]))
+        # the header carries a final name too (F-C02-b/c, repaired in 746882f)
+        if fin["ch"][0] in (1, 9) and init["ch"][0] not in (1, 9):
+            P.append(("ch_partial", "compress_file left a truncated x.ch"))
+        if not done and obs.get("in_codec") and (fin["ch"] != init["ch"] or fin["cbin"] != init["cbin"]):
+            P.append(("ch_mismatch", "compression failed part-way but x.cbin/x.ch changed from %s/%s to %s/%s" % (
+                init["cbin"], init["ch"], fin["cbin"], fin["ch"])))
+        pair_ok = fin["cbin"][0] == 2 and fin["ch"] == [2, 3, fin["cbin"][2], fin["cbin"][3]]
+        pair_was_ok = init["cbin"][0] == 2 and init["ch"] == [2, 3, init["cbin"][2], init["cbin"][3]]
+        if not done and fin["cbin"][0] == 2 and pair_was_ok and not pair_ok:
+            # only the window between the two renames may do this, and then the new stream must be safe
+            obs["window"] = True
+            if obs.get("in_codec") or fin["cbin_tmp"] != comp or fin["ch"] != hdr or fin["bin"] != orig:
+                P.append(("ch_mismatch", "failed compress_file left x.cbin %s next to x.ch %s (tmp %s)" % (
+                    fin["cbin"], fin["ch"], fin["cbin_tmp"])))
     elif op == 1:
         if fin["cbin"] != comp or fin["ch"] != hdr:
             if sc["keep"]:
@@ -628,7 +644,9 @@ def gen_scenarios(ctx, world):
                          ("othercfg", {"cbin": [2, 2, r, oc], "ch": [2, 3, r, oc]}),
                          ("otherrec", {"cbin": [2, 2, o, c], "ch": [2, 3, o, c]}),
                          ("tmp_left", {"cbin_tmp": part(c)}),
-                         ("tmp_full_other", {"cbin_tmp": [2, 2, o, oc], "ch": [2, 3, o, oc]})]
+                         ("tmp_full_other", {"cbin_tmp": [2, 2, o, oc], "ch": [2, 3, o, oc]}),
+                         ("chtmp_left", {"ch_tmp": [1, 0, 0, 0], "cbin": [2, 2, r, oc], "ch": [2, 3, r, oc]}),
+                         ("chtmp_other", {"ch_tmp": [2, 3, o, oc], "cbin_tmp": part(c)})]
                 for name, extra in stale:
                     init = base(0, c)
                     init.update(extra)
@@ -837,6 +855,8 @@ def run(ctx):
                     dist[["outcome_done", "outcome_raised", "outcome_failed"][obs["outcome"]]] += 1
                     if scx["fault"] is not None or scx["stale"] != "clean":
                         nontrivial.add(("fs", w, si, scx["fault"]))
+                    if obs.get("window"):
+                        ctx.measurements["pair_commit_window_runs"] = ctx.measurements.get("pair_commit_window_runs", 0) + 1
                     if len(samples) < 8 and scx["fault"] == 2 and scx["stale"] != "clean":
                         samples.append({"kind": "procedure", "op": OPS[scx["op"]], "stale": scx["stale"],
                                         "fault_at_call": scx["fault"], "keep_original": scx["keep"],
